@@ -361,6 +361,8 @@ func cellValue(c M) any {
 	return strings.TrimPrefix(S(c, "val"), "s:")
 }
 
+var _ = NullOf
+
 func retClass(err error) string {
 	if err == nil {
 		return "nil"
@@ -380,7 +382,7 @@ func (x *Exec) runStmt(ctx context.Context, w wire.DataWriter, params []wire.Par
 		} else {
 			rec["null"] = false
 			rec["dig"] = pgw.Dig(p.Value())
-			rec["scan"] = x.scanOK(p, st, i)
+			rec["scan"] = x.scanDig(p, st, i)
 		}
 		ps = append(ps, rec)
 	}
@@ -431,15 +433,19 @@ func (x *Exec) runStmt(ctx context.Context, w wire.DataWriter, params []wire.Par
 	return nil
 }
 
-// scanOK decodes a parameter with the library's own decoder and compares with
-// the harness's expectation (text parameters: the bytes themselves).
-func (x *Exec) scanOK(p wire.Parameter, st M, i int) bool {
-	v, err := p.Scan(uint32(oid.T_text))
-	if err != nil {
-		return false
+// scanDig decodes a parameter with the library's own decoder, requesting the
+// type the statement declared for it (text when undeclared), and returns the
+// digest of the canonical rendering of the result.
+func (x *Exec) scanDig(p wire.Parameter, st M, i int) string {
+	o := 25
+	if os := L(st, "oids"); i < len(os) && AsInt(os[i]) != 0 {
+		o = AsInt(os[i])
 	}
-	s, ok := v.(string)
-	return ok && s == string(p.Value())
+	v, err := p.Scan(uint32(o))
+	if err != nil {
+		return "!err"
+	}
+	return pgw.Dig([]byte(CanonGo(o, v)))
 }
 
 // ---------- helpers for drivers ----------
